@@ -9,8 +9,14 @@ OP(n) == [k |-> "Operator", n |-> n]
 INT(n) == [k |-> "Interval", n |-> n]
 
 \* U0: every atom kind
+\* names: ASCII, inner '-' / '_', digits, a digit right after the prefix, non-ASCII letters, non-ASCII NUMERIC characters
+\* (alphanumeric for Rust but not ASCII digits), a long name; intervals up to usize::MAX incl. values around 2^32 and 2^63
+RECURSIVE Rep(_, _)
+Rep(x, k) == IF k = 0 THEN "" ELSE x \o Rep(x, k - 1)
 AtomsU0 == {W("a"), W("b"), W("go-to"), W("A_b"), W("x1"), IV("x"), DV("y"), QV("z1"), OP("op"), OP("go-to"),
-            INT("0"), INT("7"), INT("30000"), PH}
+            W("x²"), W("名２"), W("n٣"), W("é"), W("Ω1"), W("½x"), OP("é-x"), IV("1"), IV("12"), QV("9z"), DV("①a"), W(Rep("ab", 20)),
+            INT("0"), INT("7"), INT("30000"), INT("4294967296"), INT("4294967297"), INT("9223372036854775807"),
+            INT("9223372036854775808"), INT("12345678901234567890"), INT(VocabAll.usize_max), PH}
 
 \* non-empty subsets with at most n (<= 3) elements, without enumerating SUBSET P
 SubsetsUpTo(P, n) == {{x} : x \in P}
@@ -64,9 +70,18 @@ Sentences(T, Ps, Ss, Trs) == {Sentence(t, p, st, tr) : t \in T, p \in Ps, st \in
 AsTerm(t) == [kind |-> "term", v |-> t]
 AsSentence(s) == [kind |-> "sentence", v |-> s]
 AsTask(b, s) == [kind |-> "task", v |-> [b |-> b, s |-> s]]
+\* numbers whose decimal text is long or tiny (Rust prints f64 without exponent): a formatter or parser that rounds,
+\* truncates or switches to scientific notation shows here and nowhere among 0, 0.5, 0.9, 1
+NumsRich == {"0.0000001", "0.00005", "0.001", "0.123456789", "0.30000000000000004", "0.9999999999999999", "0.12341", "0.12344", "0.99995",
+             "0." \o Rep("0", 299) \o "1"}
+RichEnvelopeSet(z) ==
+  LET Ts == {<<x>> : x \in NumsRich} \cup {<<x, y>> : x \in {"0.00005", "0.123456789"}, y \in NumsRich}
+      Bs == {<<x>> : x \in NumsRich} \cup {<<"0.5", x, "0.30000000000000004">> : x \in NumsRich}
+      S == {Sentence(W("a"), p, [k |-> "Eternal"], tr) : p \in {"Judgement", "Goal"}, tr \in Ts}
+  IN {AsSentence(s) : s \in S} \cup {AsTask(b, Sentence(IV("x"), "Judgement", [k |-> "Present"], <<"0.0000001", "0.9999999999999999">>)) : b \in Bs}
 
 \* terms whose first / last token interacts with budgets, punctuation and bracket-less stamps
-Junctions == {W("a"), IV("x"), QV("z"), OP("op"), INT("7"),
+Junctions == {W("a"), IV("x"), IV("1"), QV("z"), OP("op"), INT("7"),
               [k |-> "Inheritance", a |-> W("a"), b |-> W("b")],
               [k |-> "Conjunction", s |-> {W("a"), QV("z")}],
               [k |-> "Product", q |-> <<IV("x"), W("a")>>],
